@@ -15,6 +15,15 @@ var (
 	ErrSendRequestFailed = errors.New("error sending request to target")
 )
 
+// The client used for upstream requests. Redirects are not followed: a 3xx answer belongs to the
+// client that asked, and following it here would store (and serve) the body of another resource
+// under the requested one. The transport is left unset so that http.DefaultTransport applies.
+var upstreamClient = &http.Client{
+	CheckRedirect: func(req *http.Request, via []*http.Request) error {
+		return http.ErrUseLastResponse
+	},
+}
+
 func removeHopByHopHeaders(header http.Header) {
 	for _, v := range header.Values("Connection") {
 		for raw := range strings.SplitSeq(v, ",") {
@@ -78,7 +87,7 @@ func sendRequestToTarget(req *http.Request, httpsDefault bool) (*http.Response, 
 	removeHopByHopHeaders(req.Header)
 
 	slog.Debug("Sending request", "url", req.URL, "method", req.Method)
-	resp, err := http.DefaultClient.Do(req)
+	resp, err := upstreamClient.Do(req)
 	if err != nil {
 		slog.Error("Error sending request to target", "url", req.URL, "error", err)
 		return nil, fmt.Errorf("%w: %v", ErrSendRequestFailed, err)
